@@ -331,6 +331,70 @@ async def c09_state_notify_del(w):
             "expected": "no entity keeps the queue after notify_del with the same names"}
 
 
+async def c14_run_coro_exit(w):
+    """Exit of a pyscript task with done-callbacks. signature 'callback-raises': the first callback raises;
+    'cancelled-inside-done-callback': the task is cancelled again while a done-callback is suspended."""
+    from custom_components.pyscript.function import Function
+    await boot()
+    calls = []
+
+    class Ctx:
+        async def call_func(self, cb, name, *a, **k):
+            return await cb(*a, **k)
+
+        def log_exception(self, e):
+            calls.append(("logged", repr(e)))
+
+        def get_global_ctx_name(self):
+            return "file.c14"
+
+    ctx = Ctx()
+
+    async def cb1(*a, **k):
+        calls.append(("cb1", a, k))
+        if w["signature"] == "callback-raises":
+            raise ValueError("cb1 failed")
+        await asyncio.sleep(0.2)
+        calls.append(("cb1-finished",))
+
+    async def cb2(*a, **k):
+        calls.append(("cb2", a, k))
+
+    unique = Function.task_unique_factory(ctx)
+
+    async def body():
+        await unique("name1")
+        await asyncio.sleep(0.03)
+        if w.get("coro") == "raise":
+            raise RuntimeError("user error")
+        if w.get("coro") == "cancel":
+            await asyncio.sleep(10)
+        return 1
+
+    t = Function.create_task(body(), ast_ctx=ctx)
+    await asyncio.sleep(0)
+    Function.task_add_done_callback(t, ctx, cb1, 1, x=2)
+    Function.task_add_done_callback(t, ctx, cb2, 3)
+    await asyncio.sleep(0.08)
+    if w.get("coro") == "cancel":
+        t.cancel()
+        await asyncio.sleep(0.05)
+    if w["signature"] == "cancelled-inside-done-callback":
+        t.cancel()  # e.g. a second task.cancel()/task.unique() while the callback is still running
+    await asyncio.wait([t], timeout=2)
+    await asyncio.sleep(0.3)
+    left = {"our_tasks": t in Function.our_tasks, "task2cb": t in Function.task2cb,
+            "unique_names": [n for n, tt in Function.unique_name2task.items() if tt is t]}
+    await shutdown()
+    if w["signature"] == "callback-raises":
+        rep = not any(c[0] == "cb2" for c in calls)
+        exp = "every done-callback runs exactly once (cb2 too)"
+    else:
+        rep = left["our_tasks"] or left["task2cb"] or bool(left["unique_names"])
+        exp = "after the task ended nothing about it remains in the registries"
+    return {"reproduced": rep, "observed": {"calls": [c[0] for c in calls], "left": left}, "expected": exp}
+
+
 SCENARIOS = {k: v for k, v in list(globals().items()) if asyncio.iscoroutinefunction(v) and k[0] == "c"}
 
 if __name__ == "__main__":
